@@ -168,6 +168,11 @@ def oracle_level_1d(viol, c, q_coarse, axis_coarse, o_coarse, ctx, tol=Fr(1, 10 
                 viol("probability_to_right_jump divides by zero for a state of positive rate", increment=inc, **ctx)
                 return
             continue
+        if pr != pr:      # 0.0/0.0 with numpy floats (closed forms whose two half-cell masses cancel to exactly 0.0): nan, no exception
+            if qf[p] != 0:
+                viol("probability_to_right_jump is nan for a state of positive rate", increment=inc, **ctx)
+                return
+            continue      # a state of (float) rate 0 is never sampled, like the ZeroDivisionError case
         if not 0.0 <= pr <= 1.0:
             viol("probability_to_right_jump is not a probability", increment=inc, got=pr, **ctx)
             return
